@@ -474,8 +474,15 @@ func c15LoopHead(b *ssa.BasicBlock) *ssa.BasicBlock {
 		work = append(work, x.Succs...)
 	}
 	for d := b; d != nil; d = d.Idom() {
-		if from[d] {
-			return d
+		if !from[d] {
+			continue
+		}
+		// a loop head: a dominator of b that b can get back to AND that closes a cycle (one of its predecessors is
+		// dominated by it); b itself is the head only when it is one
+		for _, p := range d.Preds {
+			if d.Dominates(p) {
+				return d
+			}
 		}
 	}
 	return nil
@@ -555,6 +562,8 @@ func c15DupClause(r *Run, fn *ssa.Function, tests []*c15Seen, facts Sigma, dupKe
 	} else {
 		r.Fail(dupKey+":every-element", r.Where(t.lk), fmt.Sprintf("the duplicate test on %s is not in a loop, cannot execute, or a turn of the element loop can get round it (paths under the facts %s): elements go untested", t.view, facts))
 	}
+	// … and no turn leaves the loop towards acceptance before the list is exhausted (rules_t7c15cfg.go)
+	c15ExhaustsList(r, fn, dupKey+":to-the-end", h, facts, "the elements whether "+t.view.String()+" was seen before", nil)
 	// the very same key goes into the very same set
 	want := r.D.D(t.lk.Index)
 	var upd *ssa.MapUpdate
